@@ -68,6 +68,7 @@ LENS = [17, 18, 31, 32, 33, 64, 100, 127]
 GVS = [(16, 10e9), (8, 1e9), (5, 40e9), (32, 2.5e9)]
 # the same cut-off must recur under different sampling rates (a design cached per BW would survive a gv reconfiguration)
 BW_RECUR = [2e9, 3e9, 8e9, 12e9]
+LOW_BW = [3e-4, 1e-4, 6e-5, 3e-5]      # BW/fs of narrow-band receivers (the statement's range is BW in (0, fs/2))
 # histories: one process, same BW and parameters, the global sampling rate reconfigured between the calls
 HISTORIES = [
     (4e9, [(2, 10e9), (8, 10e9), (4, 10e9)]),               # 20, 80, 40 GS/s
@@ -117,6 +118,17 @@ def gen_cases(rng, tier):
                         "twin_r": rng.uniform(0.1, 1.0), "twin_R": rng.uniform(10.0, 500.0),
                         "twin_c": [rng.uniform(-2, 2), rng.uniform(-2, 2)], "twin_persample": rng.random() < 0.5,
                     })
+    # narrow-band receivers (monitor photodiodes): BW/fs down to 3e-5; CW light, dark current — the DC clauses, on the whole record
+    for ratio in LOW_BW:
+        for opt in ("ase-only", "thermal-only") if tier == "quick" else ("ase-only", "thermal-only", "all", "ase-only"):
+            sps, R = rng.choice(GVS)
+            cases.append({
+                "kind": "run", "lowbw": True, "n": rng.choice([64, 257]), "npol": rng.choice([1, 2]), "noise": False, "field": "cw",
+                "amp": rng.choice([1.0, 0.03]), "seed": rng.getrandbits(32), "np_seed": rng.getrandbits(31), "np_seed2": rng.getrandbits(31),
+                "sps": sps, "R": R, "BW": ratio * sps * R, "r": _py("float", rng.choice([1.0, 0.7])), "T": _py("float", 300.0),
+                "R_load": _py("float", rng.choice([50.0, 1e3])), "sel": _py("str", _recase(rng, opt)), "i_dark": rng.choice([10e-9, 1e-6]),
+                "Fn": 0.0, "twin_r": rng.uniform(0.1, 1.0), "twin_R": rng.uniform(10.0, 500.0),
+                "twin_c": [rng.uniform(-2, 2), rng.uniform(-2, 2)], "twin_persample": rng.random() < 0.5})
     # histories: the same call repeated while gv's sampling rate changes
     hreps = 1 if tier == "quick" else 4
     for BW, steps in HISTORIES:
@@ -663,6 +675,13 @@ def _reference(case, res):
     return {"sig": Rl * r * P, "sn": r * beat, "nn": r * Pn, "var_th": var_th, "var_sh": var_sh, "r": r, "Rl": Rl, "n": s.shape[1]}
 
 
+def _dc_tol(BW, fs):
+    """relative tolerance of the DC clauses: 1e-9, plus the rounding of the section coefficients seen through the conditioning of
+    a low-pass whose poles sit at distance ~2*pi*BW/fs from z = 1 (sum(a) ~ that distance squared): 8*eps/(2 pi BW/fs)^2.
+    5e-10 at BW/fs = 3e-4, 5e-8 at 3e-5 (observed on the unchanged tree: 1.4e-11 and 1.6e-9)"""
+    return 1e-9 + 8 * 2.2e-16 / (2 * math.pi * BW / fs) ** 2
+
+
 def _filter(case, res, x):
     import scipy.signal as sg
     sos = sg.bessel(4, case["BW"], btype="low", fs=res["fs"], output="sos", norm="mag")
@@ -750,12 +769,21 @@ def oracle(case, res):
     fnoise, _ = _filter(case, res, noise_ref)
     if np.max(np.abs(np.array(main["out_noise"]) - fnoise)) > 1e-9 * nscale:
         v.append(("C09:noise-out", "output noise differs from LPF(R_load*(selected terms + i_dark))"))
-    # --- CW: constant voltage r*P*R_load (unit DC gain)
+    # --- CW: constant voltage r*P*R_load (unit DC gain), judged on the whole record
+    dctol = _dc_tol(case["BW"], res["fs"])
     if case["field"] == "cw":
         level = ref["r"] * case["amp"] ** 2 * ref["Rl"]
         dev = float(np.max(np.abs(np.array(main["out_sig"]) - level))) / level
-        if dev > 1e-9:
-            v.append(("C09:cw-level", f"CW input of power {case['amp'] ** 2} W: output deviates from r*P*R_load = {level} V by {dev:.3e} relative"))
+        if dev > dctol:
+            v.append(("C09:cw-level", f"CW input of power {case['amp'] ** 2} W, BW/fs = {case['BW'] / res['fs']:.2e}: output deviates from "
+                      f"r*P*R_load = {level} V by {dev:.3e} relative (tolerance {dctol:.1e})"))
+    # --- no random term, no optical noise: the noise part is the dark-current offset i_dark*R_load at every sample
+    if opt == "ase-only" and not case["noise"] and case["i_dark"] > 0:
+        dark = ref["Rl"] * case["i_dark"]
+        dev = float(np.max(np.abs(np.array(main["out_noise"]) - dark))) / dark
+        if dev > dctol:
+            v.append(("C09:dark-level", f"BW/fs = {case['BW'] / res['fs']:.2e}: output noise deviates from the dark-current offset "
+                      f"i_dark*R_load = {dark} V by {dev:.3e} relative (tolerance {dctol:.1e})"))
     # --- twins
     tw = res.get("twins", {})
     if tw:
@@ -811,6 +839,8 @@ def features(case, res):
     if case["kind"] == "history":
         f += ["history-len=%d" % len(case["steps"]), "opt=" + case["sel"]["v"].lower(), "BW=%g" % case["BW"]]
     elif case["kind"] in ("run", "stat"):
+        if case.get("lowbw"):
+            f.append("low-BW/fs=%g" % (case["BW"] / (case["sps"] * case["R"])))
         f += ["opt=" + case["sel"]["v"].lower(), f"npol={case['npol']}", "optical-noise" if case["noise"] else "no-optical-noise",
               "field=" + case["field"], f"draws={len(m.get('rng', []))}",
               "case=" + ("lower" if case["sel"]["v"].islower() else "upper" if case["sel"]["v"].isupper() else "mixed")]
